@@ -24,6 +24,7 @@ Require Import V.Proofs.C04Proofs.
 Require Import V.Proofs.StreamRefine.
 Require Import V.Proofs.StreamExcl.
 Require Import V.Proofs.C01Theorems.
+Require Import V.Proofs.StreamSpecProofs.
 Require Import V.Oracle.C01Oracle.
 Require Import V.Proofs.C01OracleTop.
 Open Scope Z_scope.
@@ -69,6 +70,13 @@ Theorem C01_drained : forall init tlen mtu ses str n0 off0 m rv,
   im_pos (sy_img s2) = pos_after (sg_p0 (sgeom_of tlen mtu n0 off0)) (sp_stream sp).
 Proof. exact shared_drained. Qed.
 Print Assumptions C01_drained.
+
+(* ---- the specification itself: whatever events the abstract machine is fed, its accepted messages are exactly the
+   messages contained in its stream (BEGIN .. END runs, UNFRAGMENTED singletons, padding skipped), in order ---- *)
+Theorem C01_spec_accepted_are_the_stream_messages : forall g evs, 0 <= sg_mpl g ->
+  messages (sp_stream (spec_run g spec0 evs)) = map fst (sp_acc (spec_run g spec0 evs)).
+Proof. exact spec_accepted_are_the_messages. Qed.
+Print Assumptions C01_spec_accepted_are_the_stream_messages.
 
 (* ---- the same for the ExclusivePublication (constructor as repaired by fixes/C04-excl-new.diff) ---- *)
 Theorem C01_exclusive_starts : forall init tlen mtu ses str n0 off0, handover_ok init tlen mtu n0 off0 ->
